@@ -421,6 +421,11 @@ def check(prop, tier, seed):
                 lines.append(f"CHECKER-ERROR property={prop} self-test: harmless edit {h['id']} ({h.get('why')}) raises an alarm: {h.get('first')}")
                 if exit_code in (0, 2):
                     exit_code = 3
+        cc = st.get("encoder_crosscheck")
+        if cc and cc.get("disagreements"):
+            lines.append(f"CHECKER-ERROR property={prop} self-test: the encoder disagrees with CPython on concrete inputs: {cc.get('first')}")
+            if exit_code in (0, 2):
+                exit_code = 3
         nd = [x["id"] for x in st["seeded_changes"] if x["status"] == "not-detected"]
         print(f"self-test: seeded changes {[(x['id'], x['status']) for x in st['seeded_changes']]}; harmless edits "
               f"{[(x['id'], x['status']) for x in st['harmless_edits']]}")
@@ -518,6 +523,19 @@ def selftest(prop):
         viol = [ln for ln in r.stdout.splitlines() if ln.startswith("VIOLATION")]
         return r.returncode, viol
 
+    if prop == "C08":
+        # CPython cross-check of the encoder (DESIGN 5.7 / 13.9): the symbolic executor on concrete inputs of the real tiered_time
+        # functions against CPython executing the same file
+        try:
+            r = subprocess.run([sys.executable, os.path.join(VERIF, "dev", "crosscheck.py"), "400"], cwd=VERIF, capture_output=True, text=True,
+                               timeout=900, env=dict(os.environ, PYTHONPATH=VERIF))
+            import re as _re
+            m = _re.search(r"crosscheck: (\d+) concrete runs compared, (\d+) disagreements, (\d+) outside", r.stdout)
+            res["encoder_crosscheck"] = ({"runs": int(m.group(1)), "disagreements": int(m.group(2)), "outside_subset": int(m.group(3)),
+                                          "first": next((ln.strip() for ln in r.stdout.splitlines()[1:] if ln.strip()), None)}
+                                         if m else {"error": (r.stdout + r.stderr)[-300:]})
+        except Exception as e:  # noqa: BLE001
+            res["encoder_crosscheck"] = {"error": f"{type(e).__name__}: {e}"}
     verdict = {0: "not-detected", 1: "detected", 2: "undecided", 3: "checker-error"}
     for d in sorted(glob.glob(os.path.join(VERIF, "seeded", prop + "-m*"))):
         patch = os.path.join(d, "patch.diff")
